@@ -82,10 +82,30 @@ def gen_cut_in_flight(rng, walk):
     return lines
 
 
+def gen_noisy_timer(rng, walk):
+    """template: a timer is set when a message with a random delay arrives (at a time that is no round number), and a second
+    message with a random delay arrives before the snapshot: the remaining time of the pending timer is the difference of
+    two such times, to the last bit"""
+    seed = rng.randrange(12)
+    lines = [f"seed {seed}", f"draws {sim_suite.draws_for(seed)}", "node n0", "node n1", "proc p0 n0", "proc p1 n1 rec"]
+    k = rng.choice([3, 4, 6])
+    lines += ["rule p0 0 L:m0 0 S:m1:=a:p1 S:m2:=b:p1", f"rule p1 0 M:m1 0 {rng.choice(['T', 'O'])}:t0:{k}",
+              f"rule p1 0 M:m2 0 {rng.choice(['T', 'O'])}:t1:{k + rng.choice([0, 1])}", "rule p1 0 T:t0 0 L:m3:=x", "rule p1 0 T:t1 0 L:m4:=y"]
+    lines += [f"net delays {rng.choice([0, 1])} {rng.choice([2, 3])}", "local p0 m0 =go", rng.choice(["steps 2", "step", "steps 2"]),
+              "refenum", f"mc run {rng.choice(['dfs', 'bfs'])} {rng.choice(['full', 'disabled'])} inv=none goal=noev prune=none collect=none"]
+    for _ in range(walk):
+        lines += ["step", "proj"]
+    lines += ["steps 6", "obs"]
+    return lines
+
+
 def gen_snapshot_scenario(rng, with_steps=True, faults=True, walk=0):
     """a simulated prefix, then `mc run` (snapshot + exploration), optionally followed by a simulated walk"""
-    if rng.random() < 0.12:
+    r0 = rng.random()
+    if r0 < 0.12:
         return gen_cut_in_flight(rng, walk)
+    if r0 < 0.2:
+        return gen_noisy_timer(rng, walk)
     if faults and walk and rng.random() < 0.2:
         return gen_fault_walk(rng, walk)
     r = rng.random()
@@ -498,4 +518,68 @@ def run_two_routes(v, tier, seed, name="routes", n_quick=200, n_thorough=3000):
             nviol += 1
     cov = v.coverage.setdefault(name, {})
     cov.update({"route_pairs_compared": ncmp, "route_violations": nviol})
+    return nviol
+
+
+def run_clock_routes(v, tier, seed, name="routes_clock", n_quick=150, n_thorough=2500):
+    """C15 "clock skews": the two routes of `run_two_routes` with clock skews (negative ones too) on the nodes and handlers that
+    report the clock they are handed (`K:` actions).  Implementation against itself: whenever the two routes agree without the
+    clock readings, they must agree with them (the readings end up in the outboxes of the explored states)."""
+    from .common import run_blocks, VH, JOBS, chunks, STALL_S
+    from concurrent.futures import ThreadPoolExecutor
+    rng = random.Random(seed * 2741 + 13)
+    n = n_quick if tier == "quick" else n_thorough
+    scen, pairs = [], []
+    for i in range(n):
+        A, B = gen_two_routes(rng)
+        nodes = [l.split()[1] for l in A if l.startswith("node ")]
+        skews = [f"skew {nd} {sim_suite.fbits(rng.choice([-1.0, -0.25, -3.0, 0.5, 2.0]))}" for nd in nodes if rng.random() < 0.7]
+        # only handlers of local messages report the clock: they run in the prefix (simulator at time 0 resp. callback at depth 0),
+        # where the reading is determined; inside the exploration the clock depends on the depth of the path taken
+        marks = {j: f" K:m{rng.randint(0, 2)}" for j, l in enumerate(A) if l.startswith("rule ") and l.split()[3].startswith("L:") and rng.random() < 0.7}
+
+        def tr(lines, with_k):
+            out = []
+            for j, l in enumerate(lines):
+                if l.startswith("rule ") and with_k:
+                    l = l + marks.get([k for k, x in enumerate(A) if x == l.replace("cb ", "")][0] if l in A else -1, "")
+                out.append(l)
+                if l.startswith("node ") and lines[j + 1:j + 2] and not lines[j + 1].startswith("node "):
+                    out += skews
+            return [x for x in out if x != "refenum"]
+        # rules are identical lines in both routes, at the same positions of the common head
+        pairs.append(i)
+        scen += [(f"a{i}", tr(A, True)), (f"b{i}", tr(B, True)), (f"c{i}", tr(A, False)), (f"d{i}", tr(B, False))]
+    parts = chunks([sim_suite.block(nm, l) for nm, l in scen], JOBS)
+    impl = {}
+    with ThreadPoolExecutor(max_workers=JOBS) as ex:
+        for o, rc, err in ex.map(lambda part: run_blocks([VH, "sim"], part, STALL_S), parts):
+            impl.update(o)
+    lines_of = dict(scen)
+
+    def summary(nm):
+        out = impl.get(nm, [])
+        if not out or any("capped" in l or "panic" in l or l.endswith("-timeout") for l in out):
+            return None
+        r = [l for l in out if l.startswith("run ")]
+        return (r[0].split()[2] if r else None, frozenset(nproj(l) for l in out if l.startswith("E ")))
+    nviol = ncmp = nneg = 0
+    for i in pairs:
+        sa, sb, sc, sd = summary(f"a{i}"), summary(f"b{i}"), summary(f"c{i}"), summary(f"d{i}")
+        if None in (sa, sb, sc, sd) or sc != sd:
+            continue        # the routes differ already without clock readings (findings D1 / D15): nothing to learn about the clock
+        ncmp += 1
+        nneg += any(l.startswith("skew") and l.split()[2].startswith("xb") for l in lines_of[f"a{i}"])
+        if sa != sb:
+            if nviol < 3:
+                diff = sorted(sa[1] ^ sb[1])[:2]
+                v.violation(f"{name}-{i}.txt",
+                            f"# property {v.pid}: with handlers that report the clock they are handed, exploring from a snapshot taken after the "
+                            f"prefix and performing the prefix in the callback differ (without the clock readings the two routes agree): the node "
+                            f"clock skews are not carried over\n# states only one route visits: {[d[:300] for d in diff]}\n"
+                            "# route A (simulator prefix):\n" + "".join(l + "\n" for l in lines_of[f"a{i}"] if not l.startswith("draws")) +
+                            "# route B (callback):\n" + "".join("# " + l + "\n" for l in lines_of[f"b{i}"] if not l.startswith("draws")))
+            nviol += 1
+    v.coverage.setdefault(name, {}).update({"route_pairs_compared": ncmp, "with_negative_skew": nneg, "violations": nviol,
+        "rule": "snapshot route vs callback route with node clock skews and clock-reporting handlers; compared only where the routes agree without the readings"})
     return nviol
